@@ -33,19 +33,21 @@ Theorem C13_closure_channels : forall c, In c band_configs ->
 Proof. exact closure. Qed.
 Print Assumptions C13_closure_channels.
 
-(* the enabled uplink data-rates of a band object after ANY history of
-   AddChannel(frequency, MinDR, MaxDR) calls are exactly the union of the DR ranges of its
-   uplink channels, strictly ascending; when every added range consists of defined uplink
-   data-rates, every data-rate handed out is a defined uplink data-rate (no index from a gap
-   between two ranges, e.g. IN865 DR6 between [0..5] and [7..7]) *)
+(* a band object after ANY history of AddChannel(frequency, MinDR, MaxDR) calls (refused calls
+   change nothing; a call is accepted only with a range of uplink data-rates of the band and a
+   frequency the mac-commands can carry): the enabled uplink data-rates are exactly the union of
+   the DR ranges of its uplink channels, strictly ascending; every uplink channel's DR range
+   consists of defined uplink data-rates; every data-rate handed out is a defined uplink
+   data-rate (no index from a gap between two ranges, e.g. IN865 DR6 between [0..5] and [7..7]) *)
 Theorem C13_enabled_drs_after_add_channels : forall c, In c band_configs ->
   forall ops : list (Z * Z * Z),
   let t' := fst (add_channels (c_tab c) ops) in
   (forall d, In d (get_enabled_uplink_data_rates t') <->
              exists ch, In ch (t_up t') /\ ch_min ch <= d <= ch_max ch)
   /\ strictly_ascending (get_enabled_uplink_data_rates t') = true
-  /\ ((forall f mn mx, In (f, mn, mx) ops -> uplink_channel_closed (c_tab c) mn mx = true) ->
-      forall d, In d (get_enabled_uplink_data_rates t') -> dr_defined_up t' d = true).
+  /\ (forall ch, In ch (t_up t') -> ch_min ch <= ch_max ch /\
+                 forall d, ch_min ch <= d <= ch_max ch -> dr_defined_up t' d = true)
+  /\ (forall d, In d (get_enabled_uplink_data_rates t') -> dr_defined_up t' d = true).
 Proof. exact enabled_drs_after_add_channels. Qed.
 Print Assumptions C13_enabled_drs_after_add_channels.
 
@@ -155,14 +157,23 @@ Proof. exact zero_cells_refuted. Qed.
 Print Assumptions C13_size_well_formed_refuted.
 
 (* repeater-compatible sizes never exceed the non-repeater ones: same band, same dwell
-   time, any revision string, any version string that is not a revision name *)
+   time, ANY version string and ANY revision string (the same query on both objects) *)
 Theorem C13_repeater_le_non_repeater : forall cr cn, In cr band_configs -> In cn band_configs ->
   c_name cr = c_name cn -> c_dwell cr = c_dwell cn -> c_rep cr = true -> c_rep cn = false ->
-  forall ver rev dr m n, version_query_sane ver = true ->
+  forall ver rev dr m n,
   get_max_payload (c_tab cr) ver rev dr = Ok (m, n) ->
   exists m' n', get_max_payload (c_tab cn) ver rev dr = Ok (m', n') /\ m <= m' /\ n <= n'.
 Proof. exact repeater_le_non_repeater. Qed.
 Print Assumptions C13_repeater_le_non_repeater.
+
+(* the first-level keys of every max-payload table are protocol versions (or "latest"), the
+   second-level keys regional-parameters revisions (or "latest") - so, with the two fallback
+   theorems above, every string that is NOT a protocol version resolves like "latest" *)
+Theorem C13_table_keys : forall c, In c band_configs ->
+  (forall v, In v (skeys (t_maxpl (c_tab c))) -> In v (latest :: protocol_versions))
+  /\ (forall r, In r (rev_keys (c_tab c)) -> In r (latest :: reg_param_revisions)).
+Proof. exact table_keys. Qed.
+Print Assumptions C13_table_keys.
 
 (* sizes never shrink as the spreading factor decreases at equal bandwidth (LoRa data-rates
    usable in a common direction, any version / revision strings) *)
